@@ -6,16 +6,16 @@ SPEC = {
     'coq_check': 'C13_check',
     'parts': [
         {'pkg': 'commit', 'src': 'harness/commit/c13_test.go', 'test': 'TestVerif_C13_commit', 'fakes': True, 'extra_libs': ['vmutate'],
-         'sinks': {'C13_commit': 'sweep_judge'}, 'n': {'quick': 1000000, 'thorough': 1000000}},
+         'sinks': {'C13_commit': 'sweep_judge'}, 'n': {'quick': 400, 'thorough': 40000}},
         {'pkg': 'execute', 'src': 'harness/execute/c13_test.go', 'test': 'TestVerif_C13_exec', 'fakes': True, 'extra_libs': ['vmutate'],
-         'sinks': {'C13_exec': 'sweep_judge'}, 'n': {'quick': 1000000, 'thorough': 1000000}},
+         'sinks': {'C13_exec': 'sweep_judge'}, 'n': {'quick': 400, 'thorough': 40000}},
     ],
     'rule': 'exhaustive single-site mutation sweep: honest traffic of both plugins (commit: 4 scenarios select / build / build with a leader-supplied RMN bundle '
             'while RMN is disabled / wait; execute: the three phases; N=4 oracles) is serialised, every node of every JSON document (observation of one oracle, query, '
             'previous outcome, outcome fed to Reports, report, report info) is enumerated and mutated in 9 ways (null, empty, zero, 2^64-1, negative, duplicate element, '
             'delete, type confusion, big / odd string), and every callback that consumes the document is driven under recover() and a 3 s watchdog: ValidateObservation, '
             'then Outcome and Reports only with observations that individually passed validation, Observation / Query on mutated previous outcomes and queries, '
-            'ShouldAccept / ShouldTransmit on mutated reports; plus a raw byte stream (truncated, random, single-byte corrupted, tiny literals) at every entry point. '
+            'ShouldAccept / ShouldTransmit on mutated reports; plus random double-site mutations of the observation (quick 400, thorough 40 000) and a raw byte stream (truncated, random, single-byte corrupted, tiny literals) at every entry point. '
             'One case per (document, site, mutation, callback); the observable is the termination code (returned / panicked / watchdog). The RMN controller\'s response '
             'handling is swept by the C06 harness (22 observation and 6 signature corruptions, nil sub-messages, garbage bodies). non-trivial: every case; distinct by digest',
     'trusted': ['encoding/json, protobuf, math/big, hex.DecodeString, big.Int.SetString never panic on any input (library oracles)',
